@@ -13,7 +13,7 @@
          C19_window_everywhere, C19_postInit_window, C19_window_reaches_drawing, C19_top_level_window_drawn
    (b) "the obstacle shapes drawn are exactly the occupancies the model reports …"
          C19_shapes_iff_prescribed, C19_only_occupancies_drawn, C19_scenario_shapes, C19_nothing_iff_no_occupancy,
-         C19_witness_inverted_window (why `time_begin ≤ time_end` is assumed)
+         C19_witness_inverted_window (why `time_begin ≤ time_end` is assumed), C19_frames_independent (several frames on one renderer)
    (c) "all lanelets (or exactly the selected ones) are drawn"        C19_id_filter (definitional)
    (d) "drawing … and rendering the figure completes without an exception"
          C19_total_full (statement about an implementation), C19_total_selection_partial, C19_total_net_partial,
@@ -358,6 +358,22 @@ theorem C19_witness_inverted_window :
     subst this; simp [Pred.isNone]
   have := (h exInvFlags 2 1 exInvObst hf hw 2).2 ⟨by decide, Or.inl rfl⟩
   revert this; decide
+
+/-- Frame by frame on ONE renderer: whatever was drawn and rendered before — any number of earlier frames, each
+    rendered with `keep_static_artists` `True` or `False`, with or without the lanelet network — the obstacle patches a
+    frame shows are exactly those of its own draws (`clear` always empties `obstacle_patches`).  Together with
+    `C19_scenario_shapes` every frame of a video shows the occupancies at its own `time_begin`. -/
+theorem C19_frames_independent : ∀ (frs : List Frame) (b : Buffers), b.patches = [] →
+    (showFrames b frs).map (·.patches) = frs.map (fun fr => drawScenario fr.flags fr.obstacles)
+  | [], _, _ => rfl
+  | fr :: rest, b, hb => by
+    simp only [showFrames, List.map_cons, Frame.draw, hb, List.nil_append, List.cons.injEq, true_and]
+    exact C19_frames_independent rest _ rfl
+
+/-- … and the static artists survive a render iff it was asked to keep them.
+    (definitional: documents `clearBuffers`, the model of `MPRenderer.clear`; carries no proof content) -/
+theorem C19_static_kept_iff (keep : Bool) (b : Buffers) :
+    (clearBuffers keep b).networks = (if keep then b.networks else 0) ∧ (clearBuffers keep b).patches = [] := ⟨rfl, rfl⟩
 
 /-! ### (c) lanelet and planning-problem id filters -/
 
